@@ -379,7 +379,12 @@ func (e *Executor) execute(ctx context.Context, isRootPlan bool, p *Plan, keys [
 			}
 			subPlanMetaData.optionalResponseMetatda = nil
 		} else {
-			if err := subPlanMetaData.extractKeys(res, subPlan.Path); err != nil {
+			// Sub-plans started earlier in this loop may already be stitching their
+			// results into the objects the keys are read from.
+			resMu.Lock()
+			err := subPlanMetaData.extractKeys(res, subPlan.Path)
+			resMu.Unlock()
+			if err != nil {
 				return nil, nil, fmt.Errorf("failed to extract keys %v: %v", subPlan.Path, err)
 			}
 		}
